@@ -85,8 +85,9 @@ func strictParent(m map[string]interface{}, keys []string) (map[string]interface
 func c11Check(c *Ctx, m map[string]interface{}, op, path, newName string) (nontrivial bool) {
 	before := deepCopy(m).(map[string]interface{})
 	mv := mxj.Map(m)
+	opName := op
 	cas := func() interface{} {
-		return c11Case{Map: json.RawMessage(jsonOf(before)), Op: op, Path: path, Name: newName, Pol: rt.OrderPolicy}
+		return c11Case{Map: json.RawMessage(jsonOf(before)), Op: opName, Path: path, Name: newName, Pol: rt.OrderPolicy}
 	}
 	keys := strings.Split(path, ".")
 	last := keys[len(keys)-1]
@@ -98,14 +99,21 @@ func c11Check(c *Ctx, m map[string]interface{}, op, path, newName string) (nontr
 	if !strict {
 		shape = "not-through-maps"
 	}
-	const newV = "NEW"
+	var newV interface{} = "NEW"
+	switch op {
+	case "set-map":
+		newV, op = map[string]interface{}{"nk": "NEW"}, "set"
+	case "set-list":
+		newV, op = []interface{}{"NEW", 1.0}, "set"
+	}
+	api = map[string]string{"set": "Map.SetValueForPath", "remove": "Map.Remove", "rename": "Map.RenameKey"}[op]
 	var err error
 	rt.Unfreeze()
 	rt.Freeze(m)
 	st, pan := protect(func() {
 		switch op {
 		case "set":
-			err = mv.SetValueForPath(newV, path)
+			err = mv.SetValueForPath(deepCopy(newV), path)
 		case "remove":
 			err = mv.Remove(path)
 		case "rename":
@@ -160,13 +168,38 @@ func c11Check(c *Ctx, m map[string]interface{}, op, path, newName string) (nontr
 			c.Violate(api, "no-effect", shape, cas, nil, detail("returned nil but nothing was set and the parent is not null"))
 			return
 		}
-		if len(diffs) != 1 || diffs[0].kind == "removed" || !deepEq(diffs[0].after, newV) || !strings.HasSuffix(diffs[0].loc, "/"+last) {
-			c.Violate(api, "frame", shape, cas, nil, detail(fmt.Sprintf("expected exactly one entry %q set to the new value; differences: %+v", last, diffs)))
+		// reference edit: the first value the parent path denotes must be a map; set the key there
+		want := deepCopy(before).(map[string]interface{})
+		var ploc *string
+		if len(keys) == 1 {
+			e := ""
+			ploc = &e
+		} else {
+			refLocs(want, "", keys[:len(keys)-1], false, func(loc string, val interface{}) {
+				if ploc == nil {
+					l := loc
+					ploc = &l
+				}
+			})
+		}
+		okSet := false
+		if ploc != nil {
+			if pm, ok := atLoc(want, *ploc).(map[string]interface{}); ok {
+				pm[last] = deepCopy(newV)
+				okSet = true
+			}
+		}
+		if !okSet || !deepEq(map[string]interface{}(mv), want) {
+			c.Violate(api, "frame", shape, cas, nil, detail(fmt.Sprintf("expected exactly the entry %q of the first value the parent path denotes set to the new value; expected Map %s; differences: %+v", last, dump(want), diffs)))
 			return
 		}
 		v, e := mv.ValueForPath(path)
 		c.S.Transitions++
-		if e != nil || !deepEq(v, newV) {
+		want1 := newV
+		if l, isList := newV.([]interface{}); isList {
+			want1 = l[0] // a final list is returned as its members
+		}
+		if e != nil || !deepEq(v, want1) {
 			c.Violate(api, "postcondition", shape, cas, nil, detail(fmt.Sprintf("ValueForPath afterwards = %s, %v", dump(v), e)))
 		}
 	case "remove":
@@ -217,7 +250,7 @@ func c11Check(c *Ctx, m map[string]interface{}, op, path, newName string) (nontr
 
 func c11Run(c *Ctx) {
 	mustBeDefault(c)
-	c.S.Rule = "cases = (Map, operation, path[, new name]): every Map template with <= N nodes over keys {a,b,k}, leaves {string, null}, no empty lists; operations SetValueForPath / Remove / RenameKey; all dot-paths of 1..3 segments over {a,b,k,z}; new names {a,b,k,z}. Oracle on a deep copy taken before the call: on error the Map is unchanged (structural diff and write monitor on the frozen receiver); on success exactly one entry set / removed / moved within its map plus the stated post-condition; applicable operations on the nested-map domain must succeed; rename onto an existing sibling (incl. top level and null-valued siblings) must be refused. Ascending and descending map order. non-trivial = the operation succeeded and changed the Map."
+	c.S.Rule = "cases = (Map, operation, path[, new name]): every Map template with <= N nodes over keys {a,b,k}, leaves {string, null}, no empty lists; operations SetValueForPath (string, map and list values) / Remove / RenameKey; all dot-paths of 1..3 segments over {a,b,k,z}; new names {a,b,k,z}. Oracle on a deep copy taken before the call: on error the Map is unchanged (structural diff and write monitor on the frozen receiver); on success exactly one entry set / removed / moved within its map plus the stated post-condition; applicable operations on the nested-map domain must succeed; rename onto an existing sibling (incl. top level and null-valued siblings) must be refused. Ascending and descending map order. non-trivial = the operation succeeded and changed the Map."
 	c.S.Assumptions = []string{"SetValueForPath below a null parent is the documented no-op"}
 	n := 5
 	if c.Thorough {
@@ -227,7 +260,7 @@ func c11Run(c *Ctx) {
 	seqs([]string{"a", "b", "k", "z"}, 3, func(s []string) { paths = append(paths, strings.Join(s, ".")) })
 	g := newGen(GenP{Keys: []string{"a", "b", "k"}, MaxList: 3, MaxKeys: 3, EmptyList: false, EmptyMap: true, ListInList: true, Leaves: []interface{}{"v", nullLeaf{}}})
 	type opn struct{ op, name string }
-	ops := []opn{{"set", ""}, {"remove", ""}, {"rename", "a"}, {"rename", "b"}, {"rename", "z"}}
+	ops := []opn{{"set", ""}, {"set-map", ""}, {"set-list", ""}, {"remove", ""}, {"rename", "a"}, {"rename", "b"}, {"rename", "z"}}
 	g.rootMaps(n, func(t *T) {
 		for _, p := range paths {
 			for _, o := range ops {
@@ -251,4 +284,29 @@ func c11Run(c *Ctx) {
 			}
 		}
 	})
+}
+
+// atLoc returns the value at a location produced by refLocs ("/key" map entry, "/#i" list member).
+func atLoc(root interface{}, loc string) interface{} {
+	cur := root
+	if loc == "" {
+		return cur
+	}
+	for _, seg := range strings.Split(loc[1:], "/") {
+		if strings.HasPrefix(seg, "#") {
+			l, ok := cur.([]interface{})
+			i, _ := strconv.Atoi(seg[1:])
+			if !ok || i >= len(l) {
+				return nil
+			}
+			cur = l[i]
+		} else {
+			m, ok := cur.(map[string]interface{})
+			if !ok {
+				return nil
+			}
+			cur = m[seg]
+		}
+	}
+	return cur
 }
